@@ -16,7 +16,7 @@
 (* Values are byte-limb words (Words.tla); the poison value is <<>>.         *)
 (* Memory is flat, little-endian; cell contents: 0..255, Uninit, Unmapped.   *)
 (* Modules are the JSON projection of harness/project_ir.py.                 *)
-EXTENDS Words, FiniteSets, TLC, Json, IOUtils
+EXTENDS IROps, FiniteSets, TLC, Json, IOUtils
 
 Cases == JsonDeserialize(IOEnv.TRACE_FILE)     \* sequence of cases
 NChunks == 64
@@ -50,13 +50,7 @@ C == Cases[i]
 M == C.mods[ph]
 PB == M.pb
 
-(* ---- types --------------------------------------------------------------- *)
-IsIntTy(t) == t \in {"i8", "i16", "i32", "i64", "u8", "u16", "u32", "u64", "ptr"}
-IsFloatTy(t) == t \in {"f32", "f64"}
-Signed(t) == t \in {"i8", "i16", "i32", "i64"}
-Sz(t) == CASE t \in {"i8", "u8"} -> 1 [] t \in {"i16", "u16"} -> 2
-           [] t \in {"i32", "u32", "f32"} -> 4 [] t \in {"i64", "u64", "f64"} -> 8
-           [] t = "ptr" -> PB [] OTHER -> 0
+Sz(t) == SzP(t, PB)
 
 AlignUp(a, al) == IF al <= 1 THEN a ELSE ((a + al - 1) \div al) * al
 AddrW(a) == WFromNat(a, PB)
@@ -149,34 +143,6 @@ Mapped(a, n) == a >= 1 /\ a + n - 1 <= Len(mem) /\ \A j \in a..(a + n - 1) : mem
 Cells(a, n) == Mk([j \in 1..n |-> mem[a + j - 1]])
 AllInit(c) == \A j \in 1..Len(c) : c[j] >= 0
 WriteCells(mm, a, c) == Mk([j \in 1..Len(mm) |-> IF j >= a /\ j < a + Len(c) THEN c[j - a + 1] ELSE mm[j]])
-
-(* ---- arithmetic --------------------------------------------------------------- *)
-BinopDefined(op, a, b, t) ==
-    CASE op \in {"/", "%"} -> ~WIsZero(b) /\ ~(Signed(t) /\ WIsMin(a) /\ WIsMinusOne(b))
-      [] op \in {"<<", ">>", "rol", "ror"} -> WFitsNat(b) /\ WToNat(b) < 8 * Len(a)
-      [] OTHER -> TRUE
-BinopVal(op, a, b, t) ==
-    CASE op = "+" -> WAdd(a, b)
-      [] op = "-" -> WSub(a, b)
-      [] op = "*" -> WMul(a, b)
-      [] op = "/" -> WDiv(a, b, Signed(t))
-      [] op = "%" -> WRem(a, b, Signed(t))
-      [] op = "&" -> WAnd(a, b)
-      [] op = "|" -> WOr(a, b)
-      [] op = "^" -> WXor(a, b)
-      [] op = "<<" -> WShl(a, WToNat(b))
-      [] op = ">>" -> IF Signed(t) THEN WShrA(a, WToNat(b)) ELSE WShrL(a, WToNat(b))
-      [] op = "rol" -> WRol(a, WToNat(b))
-      [] op = "ror" -> WRor(a, WToNat(b))
-KnownBinop(op) == op \in {"+", "-", "*", "/", "%", "&", "|", "^", "<<", ">>", "rol", "ror"}
-
-CondVal(cond, a, b, t) ==
-    CASE cond = "==" -> a = b
-      [] cond = "!=" -> a # b
-      [] cond = "<"  -> WLt(a, b, Signed(t))
-      [] cond = ">"  -> WLt(b, a, Signed(t))
-      [] cond = "<=" -> ~WLt(b, a, Signed(t))
-      [] cond = ">=" -> ~WLt(a, b, Signed(t))
 
 (* ---- actions, one per instruction kind ------------------------------------------ *)
 Const ==
